@@ -157,6 +157,37 @@ fn deserialize(config: &RawConfig, deserializers: &Deserializers) -> Config {
     config
 }
 
+/// A single-step handle on the otherwise private reloader, for verification.
+#[cfg(feature = "verif_hooks")]
+pub struct VerifReloader(ConfigReloader);
+
+#[cfg(feature = "verif_hooks")]
+impl VerifReloader {
+    /// Creates a reloader in the state `init_file` would start it in.
+    pub fn new(
+        path: PathBuf,
+        source: String,
+        modified: Option<SystemTime>,
+        deserializers: Deserializers,
+        handle: Handle,
+    ) -> anyhow::Result<VerifReloader> {
+        let format = Format::from_path(&path)?;
+        Ok(VerifReloader(ConfigReloader {
+            path,
+            format,
+            source,
+            modified,
+            deserializers,
+            handle,
+        }))
+    }
+
+    /// One poll; the same result `run` matches on.
+    pub fn run_once(&mut self, rate: Duration) -> anyhow::Result<Option<Duration>> {
+        self.0.run_once(rate)
+    }
+}
+
 struct ConfigReloader {
     path: PathBuf,
     format: Format,
